@@ -53,17 +53,28 @@ Record ladder := { t1 : nat; t2 : nat }.          (* waitall(5.0), waitall(10.0)
 
 Definition all_done_by (ts : list task) (T : nat) : bool := forallb (fun x => leb_o (ends x) T) ts.
 Definition main_task (ts : list task) : option task := find in_main ts.
-(* when the worker process is gone, relative to the moment its receiver saw EOF *)
+(* when the worker process is gone, relative to the moment its receiver saw EOF.
+   At t1 the receiver sends SIGINT; KeyboardInterrupt is raised in the main thread:
+     - main thread idle in serve() (waiting for a task or joining the receiver): serve() ends, the process exits at t1;
+     - main thread inside a task that lets the interrupt unwind: the task ends at t1, but Reply.run catches the
+       BaseException, so serve() goes on to join the receiver thread, which is waiting (up to t2 more) for the tasks of
+       the OTHER threads;
+     - main thread inside a task that swallows the interrupt: nothing changes.
+   At t1 + t2 the receiver calls os._exit. *)
+Definition others_done (ts : list task) : otime := omax (map ends (filter (fun x => negb (in_main x)) ts)).
 Definition exit_time (l : ladder) (ts : list task) : nat :=
   if all_done_by ts (t1 l) then match omax (map ends ts) with Some x => x | None => t1 l end    (* pool drained: serve returns *)
   else match main_task ts with
-       | None => t1 l                                   (* main thread idle in serve: SIGINT ends serve *)
+       | None => t1 l
        | Some m =>
-           if leb_o (ends m) (t1 l) then t1 l           (* main thread's task already over: idle again *)
+           if leb_o (ends m) (t1 l) then t1 l
            else match on_int m with
-                | Unwinds => t1 l                       (* KeyboardInterrupt unwinds the body and serve *)
+                | Unwinds => match others_done ts with
+                             | Some x => if x <=? t1 l + t2 l then Nat.max (t1 l) x else t1 l + t2 l
+                             | None => t1 l + t2 l
+                             end
                 | Swallows => if all_done_by ts (t1 l + t2 l)
                               then match omax (map ends ts) with Some x => x | None => t1 l + t2 l end
-                              else t1 l + t2 l          (* os._exit *)
+                              else t1 l + t2 l
                 end
        end.
